@@ -278,7 +278,7 @@ class TracerScenario:
             return K(None)
         if isinstance(fval, S) and fval.name == "self.should_trace":
             pass
-        callee = self.repo.resolve_callee(self.ri.cur_fi, call)
+        callee = self.ri.resolve(call, fval)
         if callee is not None:
             tail = callee.qualname.split(".")[-1]
             if callee.fq == "monkeytype.typing.get_type" or tail == "get_type":
